@@ -602,22 +602,11 @@ func (w *world) apply(o op, pause func()) {
 		w.newIno()
 	case "link", "linkto":
 		od := ""
-		var live []string
-		if o.K == "linkto" {
-			// Only directories that still exist: removing a target directory and
-			// re-creating it under the same path while the loop still believes it
-			// watched is the "directory removed" family the source does not handle
-			// (its watch died with the old inode, updateDirWatches(old == new) does
-			// not re-add it); see notes/C17.md.
-			for _, d := range w.odirs {
-				if fi, err := os.Stat(d); err == nil && fi.IsDir() {
-					live = append(live, d)
-				}
-			}
-		}
-		if len(live) > 0 {
-			// back into a directory an earlier symlink pointed into
-			od = live[o.M%len(live)]
+		if o.K == "linkto" && len(w.odirs) > 0 {
+			// back into a directory an earlier symlink pointed into - possibly
+			// removed since: it is then re-created under the same path
+			od = w.odirs[o.M%len(w.odirs)]
+			must(os.MkdirAll(od, 0o755))
 		} else {
 			od = filepath.Join(w.root, fmt.Sprintf("o%d", w.next()))
 			must(os.Mkdir(od, 0o755))
@@ -1545,6 +1534,9 @@ func corpus() []json.RawMessage {
 	add(input{Mode: "q", Backend: "args", Layout: 3, Dec: 1, Ops: wrapped})
 	add(input{Mode: "r", Backend: "dials", Layout: 1, Dec: 1, Ops: wrapped})
 	add(input{Mode: "w", Backend: "args", Layout: 0, Dec: 1, Ops: wrapped})
+	// the believed target directory removed and re-created under the same path inside one pass
+	add(input{Mode: "w", Backend: "args", Layout: 3, Ops: []op{{K: "delete", C: 1}, {K: "link", C: 111, H: true}, {K: "link", C: -1, V: 2}, {K: "rename", C: 2, H: true},
+		{K: "linkto", M: 5, C: 3, V: 1}, {K: "rewrite", C: 4, V: 3}, {K: "rename", C: 5, V: 1}}})
 	// a change between the initial Value() and Watch()
 	add(input{Mode: "q", Backend: "args", Layout: 0, Early: 1, Ops: []op{{K: "rename", C: 3}, {K: "rewrite", C: 4}}})
 	add(input{Mode: "q", Backend: "args", Layout: 3, Early: 2, Ops: []op{{K: "rewrite", C: 3}, {K: "k8s", C: 4}, {K: "rename", C: 5}}})
